@@ -4,7 +4,7 @@ ID=$1; V=$2
 BASE=${SEEDBASE:-/tmp/seed}; WT=$BASE/$ID/wt; OUT=$BASE/$ID/out
 LOG=$OUT/${V}_confirm.log
 FEAT="${FEAT_OVERRIDE:-}"
-[ "$ID" = "C18" ] && FEAT="--features sdp,blas-src,lapack-src"
+{ [ "$ID" = "C18" ] || [ "$ID" = "C17" ]; } && FEAT="--features sdp,blas-src,lapack-src"
 v=$(echo $V | tr A-Z a-z)
 DEMO=$(python3 -c "import json;print(json.load(open('$OUT/$V.json')).get('demo_path_in_repo','tests/seeded_demo_$v.rs'))")
 cd $WT || exit 9
